@@ -4,7 +4,7 @@
    same history into per-type views; selections are queries on the state after any history (= interleaved
    anywhere). *)
 From Coq Require Import List ZArith Bool Arith.
-From Dae Require Import C15_Spec C15_Model C15_Proofs.
+From Dae Require Import C15_Spec C15_Model C15_Proofs C15_Switch C15_SwitchProofs.
 Import ListNotations.
 Open Scope Z_scope.
 
@@ -149,3 +149,131 @@ Example C15_min_nonvacuous :
   results_of (select w3_cfg (run w3_cfg (GSet (SMin MLast)) w3_hist) rq true None) = [ROk 1 60000000] /\
   results_of (select w3_cfg (run w3_cfg (GSet (SMin MLast)) w3_hist) rq true (Some 1%nat)) = [ROk 0 100000000].
 Proof. exact C15_min_nonvacuous_proof. Qed.
+
+
+(* ====================================================================================================== *)
+(* Run-time policy switches as they really execute (C15_Switch.v): DialerGroup.SetSelectionPolicy switches  *)
+(* the six shared sets one after the other and publishes the new group policy afterwards; selections read    *)
+(* the published policy, notifications act on the sets, both may run between any two of those steps.         *)
+(* Histories are lists of micro events (mop); they are not restricted to well-formed switches, so every      *)
+(* combination (published policy, per-set policy, cached best nil / set) the code can expose - and more -    *)
+(* is covered.  Selections are queries after any prefix = at any point inside a switch.                      *)
+(* ====================================================================================================== *)
+
+(* the invariant of every set under ITS OWN policy, after every micro history: index map / entries / view
+   (set_ok), standing choice (min_inv) when the set's policy is a min policy, no cached best when it is random *)
+Theorem C15_interleaved_invariant :
+  forall (c : cfg) (p0 : gpol) (h : list mop), xgroup_ok c (xrun c p0 h) (xspec_run c p0 h).
+Proof. exact xrun_ok. Qed.
+Print Assumptions C15_interleaved_invariant.
+
+(* selection at any point of any interleaving, whatever the published policy and the per-set policies: every
+   result satisfies the spec checker (alive, not excluded, first non-empty type of the documented order in both
+   families when allowed; `no alive node` only when all are empty; under a published min policy not beaten by the
+   tolerance within its view).  No premise on the group size. *)
+Theorem C15_select_interleaved :
+  forall (c : cfg) (p0 : gpol) (h : list mop) (rq : reqtype) (strict : bool) (excl : option nat) (p : spol) (r : sel_res),
+    g_policy (xrun c p0 h) = GSet p ->
+    In r (results_of (select c (xrun c p0 h) rq strict excl)) ->
+    select_ok c (sstate_of (xspec_run c p0 h)) (key_of rq) strict excl r = true.
+Proof. exact C15_select_interleaved_proof. Qed.
+Print Assumptions C15_select_interleaved.
+
+(* ... in particular: whenever some type tried has a non-excluded alive node, the selection never reports
+   `no alive node` (and conversely), at any point inside any policy switch *)
+Theorem C15_select_interleaved_complete :
+  forall (c : cfg) (p0 : gpol) (h : list mop) (rq : reqtype) (strict : bool) (excl : option nat) (p : spol),
+    c_n c <> O -> g_policy (xrun c p0 h) = GSet p ->
+    ((exists l, In (RErr ENoAlive l) (results_of (select c (xrun c p0 h) rq strict excl))) <->
+     ((forall t', In t' (tried (key_of rq) strict) -> cands excl (x_views (xspec_run c p0 h) t') = []) /\
+      Nat.eqb (c_n c) 1 && strict = false)).
+Proof. exact C15_select_interleaved_complete_proof. Qed.
+Print Assumptions C15_select_interleaved_complete.
+
+(* GetMinLatency with no cached best falls back to the scan: it returns nil iff the set has no non-excluded alive
+   node, and otherwise an alive non-excluded node - for every set of every reachable state of every interleaving,
+   under any policy of that set *)
+Theorem C15_get_min_nil_best :
+  forall (c : cfg) (p0 : gpol) (h : list mop) (sets : ntype -> aset) (t : ntype) (excl : option nat),
+    g_sets (xrun c p0 h) = Some sets -> a_best (sets t) = None ->
+    (fst (get_min (sets t) excl) = None <-> cands excl (x_views (xspec_run c p0 h) t) = []) /\
+    (forall d l, get_min (sets t) excl = (Some d, l) -> In d (cands excl (x_views (xspec_run c p0 h) t))).
+Proof. exact C15_get_min_nil_best_proof. Qed.
+Print Assumptions C15_get_min_nil_best.
+
+(* the variant "no cached best means no alive dialer" (get_min_early) is wrong: 2 nodes, min policy published, the
+   six sets already switched to random (first half of SetSelectionPolicy(random)): every node is alive, the cached
+   best is nil, the early return yields nil where GetMinLatency yields node 0 and the selection succeeds *)
+Theorem C15_get_min_early_refuted :
+  let g := xrun w4_cfg (GSet (SMin MLast)) w4_hist in
+  let a := match g_sets g with Some s => s (DTcp, V4) | None => new_set SRandom end in
+  g_policy g = GSet (SMin MLast) /\ a_policy a = SRandom /\ a_best a = None /\
+  cands None (x_views (xspec_run w4_cfg (GSet (SMin MLast)) w4_hist) (DTcp, V4)) = [0%nat; 1%nat] /\
+  fst (get_min a None) = Some 0%nat /\ fst (get_min_early a None) = None /\
+  results_of (select w4_cfg g w4_rq false None) = [ROk 0 0].
+Proof. exact C15_get_min_early_refuted_proof. Qed.
+
+(* the sequential development is the special case of micro histories made of atomic events only ... *)
+Theorem C15_sequential_is_interleaved :
+  forall (c : cfg) (p0 : gpol) (h : list op),
+    xrun c p0 (map MOp h) = run c p0 h /\
+    x_store (xspec_run c p0 (map MOp h)) = ss_store (spec_run c p0 h) /\
+    x_pub (xspec_run c p0 (map MOp h)) = ss_policy (spec_run c p0 h) /\
+    (forall t, x_views (xspec_run c p0 (map MOp h)) t = ss_views (spec_run c p0 h) t).
+Proof. intros c p0 h. split; [apply xrun_seq|]. destruct (xspec_seq c p0 h) as (A & B & C & _). auto. Qed.
+Print Assumptions C15_sequential_is_interleaved.
+
+(* ... and the atomic policy switch of the sequential model is exactly the step-by-step execution
+   (expand_policy: per-set switches in array order, then the publish) when nothing runs in between *)
+Theorem C15_policy_switch_expands :
+  forall (c : cfg) (g : group) (p p' : spol) (sets : ntype -> aset),
+    g_policy g = GSet p -> g_sets g = Some sets -> (forall t, a_policy (sets t) = p) ->
+    let g1 := fst (step c g (OPolicy (GSet p'))) in
+    let g2 := fold_left (fun g m => fst (xstep c g m)) (expand_policy (GSet p) (GSet p')) g in
+    g_store g2 = g_store g1 /\ g_policy g2 = g_policy g1 /\
+    exists s1 s2, g_sets g1 = Some s1 /\ g_sets g2 = Some s2 /\ forall t, s2 t = s1 t.
+Proof. exact expand_policy_refines. Qed.
+Print Assumptions C15_policy_switch_expands.
+
+(* random: every non-excluded alive node of the serving type can be returned, and only those *)
+Theorem C15_select_random_complete :
+  forall (c : cfg) (p0 : gpol) (h : list op) (rq : reqtype) (strict : bool) (excl : option nat) (t' : ntype),
+    c_n c <> O -> g_policy (run c p0 h) = GSet SRandom ->
+    first_nonempty (ss_views (spec_run c p0 h)) excl (tried (key_of rq) strict) = Some t' ->
+    forall d, In d (cands excl (ss_views (spec_run c p0 h) t')) <->
+              In (ROk d 0) (results_of (select c (run c p0 h) rq strict excl)).
+Proof. exact C15_select_random_complete_proof. Qed.
+Print Assumptions C15_select_random_complete.
+
+(* C15_select_random_ok / C15_select_min without the premise c_n <> 0 (an empty group answers `no dialer`) *)
+Theorem C15_select_set_ok :
+  forall (c : cfg) (p0 : gpol) (h : list op) (rq : reqtype) (strict : bool) (excl : option nat) (p : spol) (r : sel_res),
+    g_policy (run c p0 h) = GSet p ->
+    In r (results_of (select c (run c p0 h) rq strict excl)) ->
+    select_ok c (spec_run c p0 h) (key_of rq) strict excl r = true.
+Proof. exact C15_select_set_ok_all_proof. Qed.
+Print Assumptions C15_select_set_ok.
+
+(* ---- notifications naming a dialer that is not a member (C15_Switch.v, notify_raw) ----
+   The Go set has no membership guard; xrun_raw models what it does (an unregistered dialer reads as "alive at index
+   0").  On histories that name members only - the only ones the group can produce, and the property's quantifier -
+   the raw model IS the model all theorems above are about, and it never hits a panic. *)
+Theorem C15_members_only_raw :
+  forall (c : cfg) (p0 : gpol) (h : list mop),
+    forallb (member_mop (c_n c)) h = true -> xrun_raw c p0 h = xrun c p0 h.
+Proof. exact C15_members_only_raw_proof. Qed.
+Print Assumptions C15_members_only_raw.
+
+Theorem C15_member_notification_no_panic :
+  forall (c : cfg) (p0 : gpol) (h : list mop) (m : mop),
+    member_mop (c_n c) m = true -> xstep_raw_panics c (xrun c p0 h) m = false.
+Proof. exact xstep_raw_member_no_panic. Qed.
+Print Assumptions C15_member_notification_no_panic.
+
+(* what the code does with a stranger (replayed on the Go code by the harness family `foreign`): 2 members, both
+   alive; dialer 2, not a member, is reported not alive: member 0 is evicted from aliveEntries *)
+Theorem C15_foreign_notification_witness :
+  let g := xrun_raw w5_cfg (GSet SRandom) [MOp (ONotify 2 (DTcp, V4) false)] in
+  let a := match g_sets g with Some s => s (DTcp, V4) | None => new_set SRandom end in
+  map fst (a_entries a) = [1%nat] /\ a_idx a 0%nat = SAt 0 /\ a_idx a 1%nat = SAt 0 /\ a_idx a 2%nat = SNotAlive.
+Proof. exact C15_foreign_notification_witness_proof. Qed.
